@@ -62,6 +62,7 @@ var errCrashed = errors.New("verif: controller process is down")
 type simClient struct {
 	w     *World
 	actor string
+	raw   bool // read-only helper client of event handlers / webhooks: never locks (it is called under the lock)
 }
 
 var _ client.Client = &simClient{}
@@ -141,6 +142,10 @@ func (c *simClient) post(op OpInfo) error {
 }
 
 func (c *simClient) Get(ctx context.Context, key client.ObjectKey, obj client.Object, opts ...client.GetOption) error {
+	if c.raw {
+		return c.w.fake.Get(ctx, key, obj, opts...)
+	}
+	defer c.w.lock()()
 	if _, err := c.pre("get", gvkOf(obj), key, false); err != nil {
 		return err
 	}
@@ -148,6 +153,14 @@ func (c *simClient) Get(ctx context.Context, key client.ObjectKey, obj client.Ob
 }
 
 func (c *simClient) List(ctx context.Context, list client.ObjectList, opts ...client.ListOption) error {
+	if c.raw {
+		if err := c.w.fake.List(ctx, list, opts...); err != nil {
+			return err
+		}
+		sortList(list)
+		return nil
+	}
+	defer c.w.lock()()
 	if _, err := c.pre("list", gvkOf(list), types.NamespacedName{}, false); err != nil {
 		return err
 	}
@@ -358,6 +371,7 @@ func (w *World) rawPut(obj client.Object) {
 // (UID, creationTimestamp, generation, admission), no-op detection, write log, monitors and
 // watch-event fan-out.
 func (w *World) write(c *simClient, verb string, obj client.Object, apply func() error) error {
+	defer w.lock()()
 	gvk := gvkOf(obj)
 	key := client.ObjectKeyFromObject(obj)
 	op, err := c.pre(verb, gvk, key, true)
